@@ -273,6 +273,7 @@ sexp sexp_bytes_to_string (sexp ctx, sexp vec, sexp_uint_t offset, sexp_uint_t s
   res = sexp_c_string(ctx, sexp_bytes_data(vec) + offset, size);
 #else
   res = sexp_alloc_type(ctx, string, SEXP_STRING);
+  if (sexp_exceptionp(res)) return res;
   sexp_string_bytes(res) = vec;
   sexp_string_offset(res) = offset;
   sexp_string_size(res) = size - offset;
